@@ -25,7 +25,8 @@ M = [
     ("c01-window-start-exclusive", ["C01"], "server/report_listener_udp.go", "if report.Timeslot < server.equipmentReportsOffset {", "if report.Timeslot <= server.equipmentReportsOffset {", "first slot of the window refused"),
     ("c01-sentinel-1-accepted", ["C01"], "server/report_listener_udp.go", "if report.PowerOutput == 0 || report.PowerOutput == 1 {", "if report.PowerOutput == 0 {", "power 1 integrated"),
     ("c01-gca-key-also-signs-reports", ["C01"], "server/report_listener_udp.go", "if !glow.Verify(equipment.PublicKey, sb, report.Signature) {", "if !glow.Verify(equipment.PublicKey, sb, report.Signature) && !glow.Verify(server.gcaPubkey, sb, report.Signature) {", "reports signed by the GCA key accepted"),
-    ("c01-uint32-window-arith", ["C20", "C01"], "server/report_listener_udp.go", "int64(report.Timeslot) > int64(now)+432 {", "report.Timeslot > now+432 {", "upper clock bound in uint32 (wraps near 2^32)"),
+    ("c01-uint32-window-arith", ["C20", "C01"], "server/report_listener_udp.go", "if int64(report.Timeslot) < int64(now)-432 ||", "if report.Timeslot < now-432 ||", "lower clock bound in uint32 (wraps for clocks below 432)"),
+    ("equivalent-c01-uint32-upper-bound", ["C20", "C01"], "server/report_listener_udp.go", "int64(report.Timeslot) > int64(now)+432 {", "report.Timeslot > now+432 {", "EQUIVALENT on reachable states: differs only for a window offset within 432 of 2^32 (2 million rotations)"),
     ("c02-last-writer-wins", ["C02"], "server/report_listener_udp.go", "\t\tserver.equipmentReports[report.ShortID][report.Timeslot-server.equipmentReportsOffset].PowerOutput = 1\n\t}\n\t// Ban the report", "\t\tserver.equipmentReports[report.ShortID][report.Timeslot-server.equipmentReportsOffset] = report\n\t}\n\t// Ban the report", "second distinct report replaces the first"),
     ("c02-capacity-ge", ["C02"], "server/report_listener_udp.go", "report.PowerOutput > server.equipment[report.ShortID].Capacity*MaxCapacityBuffer/100", "report.PowerOutput >= server.equipment[report.ShortID].Capacity*MaxCapacityBuffer/100", "value exactly at the limit banned"),
     ("c02-identical-by-power-only", ["C02"], "server/report_listener_udp.go", "if server.equipmentReports[report.ShortID][report.Timeslot-server.equipmentReportsOffset] == report {", "if server.equipmentReports[report.ShortID][report.Timeslot-server.equipmentReportsOffset].PowerOutput == report.PowerOutput {", "a second signature over the same content treated as a replay"),
@@ -58,13 +59,14 @@ M = [
     ("c17-server-unban-accepted", ["C17"], "server/api_authorized_servers.go", "\t\t\tif s.gcaServers.servers[i].Banned {\n\t\t\t\ts.gcaServers.mu.Unlock()\n\t\t\t\tjson.NewEncoder(w).Encode(map[string]string{\"status\": \"success\"})\n\t\t\t\ts.logger.Info(\"received authorization for server that is banned\")\n\t\t\t\treturn\n\t\t\t}\n\t\t\tif !server.Banned {", "\t\t\tif !server.Banned && !s.gcaServers.servers[i].Banned {", "a banned server entry can be replaced by a non-banned one"),
     ("c17-adopt-without-persisting-id", ["C17"], "client/reports.go", "\t\terr = os.WriteFile(filepath.Join(c.staticBaseDir, ShortIDFile), shortIDBytes[:], 0644)\n\t\tif err != nil {\n\t\t\tpanic(err)\n\t\t}\n", "", "new short id adopted in memory but not written to disk"),
     ("c18-newest-evicted-first", ["C18"], "glow/event_log.go", "return updateOrder[i].updates[len(updateOrder[i].updates)-1].Before(updateOrder[j].updates[len(updateOrder[j].updates)-1]) // Ascending sort", "return updateOrder[i].updates[len(updateOrder[i].updates)-1].After(updateOrder[j].updates[len(updateOrder[j].updates)-1]) // Ascending sort", "most recently updated lines evicted first"),
-    ("c18-limit-off-by-one", ["C18"], "glow/event_log.go", "\tif sizeRequired+l.logSizeBytes > l.logMaxBytes {\n", "\tif sizeRequired+l.logSizeBytes >= l.logMaxBytes {\n", "eviction starts one byte early (sort guard only)"),
+    ("equivalent-c18-sort-guard", ["C18"], "glow/event_log.go", "\tif sizeRequired+l.logSizeBytes > l.logMaxBytes {\n", "\tif sizeRequired+l.logSizeBytes >= l.logMaxBytes {\n", "EQUIVALENT: only the guard that builds the eviction order changes, the eviction loop does not"),
+    ("c18-evicts-when-exactly-full", ["C18"], "glow/event_log.go", "\tfor sizeRequired+l.logSizeBytes > l.logMaxBytes {\n", "\tfor sizeRequired+l.logSizeBytes >= l.logMaxBytes && len(updateOrder) > 0 {\n", "a line that fits exactly still evicts the oldest line"),
     ("c19-expiry-keeps-nothing", ["C19", "C14"], "glow/rate_limiter.go", "\t\tif t.After(exp) {\n", "\t\tif t.Before(exp) {\n", "expiry comparison inverted"),
     ("c20-trigger-3650", ["C20"], "server/equipment.go", "\t\t\tif int64(now)-int64(ero) > 3200 {", "\t\t\tif int64(now)-int64(ero) > 3650 {", "rotation trigger too late for the window inequality"),
     ("c20-genesis-refused", ["C20"], "glow/timeslot_u.go", "\tif time < GenesisTime {", "\tif time <= GenesisTime {", "the genesis second itself refused"),
     ("c20-slot-start-off", ["C20"], "glow/timeslot_u.go", "return GenesisTime + int64(timeslot*300)", "return GenesisTime + int64(timeslot*300) + 1", "slot start off by one second"),
     ("c14-publicfiles-reordered", ["C14"], "server/consts.go", "\"allDeviceStats.dat\", \"equipment-reports.dat\", \"equipment-authorizations.dat\", \"gcaPubKey.dat\"", "\"allDeviceStats.dat\", \"equipment-authorizations.dat\", \"equipment-reports.dat\", \"gcaPubKey.dat\"", "reports archived after authorizations"),
-    ("c05-memory-before-disk-auth", ["C05"], "server/equipment.go", "\tserializedData := ea.Serialize()\n", "\tserializedData := ea.Serialize()\n\tif !exists {\n\t\tgcas.equipmentShortID[ea.PublicKey] = ea.ShortID\n\t}\n", "(control) harmless-looking early index update - must still equal the model unless the write fails"),
+    ("equivalent-c05-memory-before-disk-auth", ["C05"], "server/equipment.go", "\tserializedData := ea.Serialize()\n", "\tserializedData := ea.Serialize()\n\tif !exists {\n\t\tgcas.equipmentShortID[ea.PublicKey] = ea.ShortID\n\t}\n", "EQUIVALENT under the process-crash model (memory is lost at a crash; the write cannot fail in the sandbox)"),
     ("c12-stats-index-unchecked", ["C12", "C03"], "server/api_device_stats.go", "\tif tso < s.equipmentReportsOffset {\n\t\trelativeTSO", "\tif tso <= s.equipmentReportsOffset && tso/2016 <= uint32(len(s.equipmentStatsHistory)) && s.equipmentReportsOffset > 0 {\n\t\trelativeTSO", "first live week looked up in the archive (index out of range)"),
 ]
 
